@@ -397,6 +397,21 @@ def check_grouped(A, code, vendor, entry_mand, tree, m, p, out, ctx="dict"):
             return
         if d.as_bytes() != ref:
             out.append(Violation("avp:grouped:reencode-mismatch", f"{case}", case))
+        # decoding is a function of the bytes alone: editing one decoded object must not leak into the next decode
+        kids_d = d.value
+        if kids_d:
+            k0 = kids_d[0]
+            k0.is_private = not k0.is_private
+            if type(k0).__name__ == "AvpUnsigned32":
+                k0.value = 123456
+            elif type(k0).__name__ == "AvpGrouped":
+                k0.value = []
+            else:
+                k0.payload = b"edited!!"
+        d2 = A.Avp.from_bytes(ref)
+        r = compare_tree(d2, ref)
+        if r:
+            out.append(Violation("avp:grouped:decode-depends-on-an-earlier-decoded-object", f"{case}: after editing the first decode: {r}", case))
     except Exception as e:
         out.append(Violation("avp:grouped:raises", f"{case}: {type(e).__name__}: {e}", case))
 
